@@ -944,6 +944,11 @@ ASSUMPTIONS = [
 ]
 
 
+def _svcframe():
+    from . import svcframe
+    return svcframe
+
+
 def run(tier, seed):
     def extra(r, cases, obs):
         cov = _extra(r, cases, obs)
@@ -951,9 +956,13 @@ def run(tier, seed):
         cov.update(c14init.stage(r, seed, 300 if tier == 'quick' else 8000))
         from . import c14frame     # the real resource-service framework: start-up replay, inotify loop, real client
         cov.update(c14frame.stage(r, seed, 150 if tier == 'quick' else 2500))
+        from . import svcframe     # the framework as a producer of service schedules: Node/SvcFrame.v, Props/C14Frame.v
+        u = svcframe.stage(r, seed, tier)
+        cov['extra_obligations'] = cov.get('extra_obligations', 0) + u.pop('svcframe_obligations', 0)
+        cov.update(u)
         return cov
     core.standard_run(PID, tier, seed, {
-        'model_vos': ['Node/Owners'], 'table_sections': ['source_shape'],
+        'model_vos': ['Node/Owners'], 'table_sections': ['source_shape', 'svcframe'],
         'preamble': PREAMBLE, 'run_fn': RUN_FN, 'in_type': IN_TYPE,
         'gen_case': gen_case,
         'impl_run': impl_run,
@@ -971,11 +980,14 @@ def run(tier, seed):
                 'intruder frees); non-trivial = a release by a non-owner hit a held entry, or a collection removed '
                 'something, or a repeated service request found its device, or an owner registered an entry '
                 'during a collection',
-        'trusted': TRUSTED, 'assumptions': ASSUMPTIONS, 'anchors': ANCHORS, 'extra': extra,
+        'trusted': list(TRUSTED) + list(_svcframe().TRUSTED), 'assumptions': list(ASSUMPTIONS) + list(_svcframe().ASSUMPTIONS),
+        'anchors': ANCHORS, 'extra': extra,
     })
 
 
 def replay_case(case):
+    if isinstance(case, dict) and case.get('engine') == 'E-node-svcframe':
+        return _svcframe().replay_case(case)
     if isinstance(case, dict) and case.get('engine') == 'E-node-c14frame':
         from . import c14frame
         return c14frame.replay_case(case)
